@@ -11,17 +11,18 @@ package cluster
 // watcher resume logic, real retry interceptor) that is connected over simnet to
 // simetcd (harness/simetcd: a single-copy MVCC model of the etcd server).
 //
-// A run: 1-2 syncers (key / raw key / prefix / raw prefix) each with a consumer
-// that reads promptly or lags (so the 10-slot channel fills); 1-3 phases, each
+// A run: one syncer (key / raw key / prefix / raw prefix; the executor accepts
+// several, the generator emits one, see c19Gen) with a consumer that reads
+// promptly or lags (so the 10-slot channel fills); 1-3 phases, each
 // with writer tasks (put / same-value put / delete / delete-then-recreate /
 // delete-prefix / multi-key txn, on keys under and outside the watched
 // key/prefix, issued through the real cluster API or written directly into the
 // store as "another member") and a fault task (watch stream break that clientv3
 // resumes, fatal stream error that cancels the watch, server stop/start with an
 // optional compaction while it is down, compaction, Range errors/slowness up to
-// client time-outs, slow watch delivery, lost replies); every phase ends with a
-// quiet period (no writes, no faults, prompt consumer) after which convergence
-// is checked.
+// client time-outs, Range answers that leave late, slow watch delivery, lost
+// replies); every phase ends with quiet periods (no writes, no faults, prompt
+// consumer) after which convergence is checked.
 //
 // Oracle (written from the property statement; the store history comes from
 // simetcd, which logs every revision):
@@ -37,18 +38,41 @@ package cluster
 //                             not the store's content
 //   C19.snapshot-mutated      a snapshot changed after it had been delivered
 //   C19.channel-closed        the channel was closed while the syncer was open
-//   C19.livelock              the run burnt its step budget
+//
+// Observation (NOT a violation of the statement, counted by the probe
+// c19.busy_pull_loop_observed): when clientv3 closes the watch channel without
+// a Canceled response (fatal stream error while the subscriber was busy for
+// more than 250 ms), syncer.run receives zero values for ever and pulls
+// back-to-back. The harness detects >150 Range RPCs per virtual second, logs it
+// and from then on makes every Range cost 50 ms of virtual time, so that the
+// run goes on (snapshots and convergence are still judged).
+//
+// Determinism measures (mismatches=0 over 500 seeds): every harness task and
+// every sleep of the simetcd hooks runs on its own sub-microsecond offset (no
+// two timers expire in the same instant), handler goroutines pass a gate before
+// anything else (canonical names), consumers/writers pass a gate before logging,
+// gRPC reconnect back-off without jitter, math/rand reseeded per run, and the Go
+// runtime is built with the overlays of harness/simetcd/goroot (seeded select
+// order and map seeds for goroutines inside the bubble, ...; see the README
+// there). check.json "selects" additionally puts syncer.run's select under the
+// recorded scheduler.
 //
 // Oracle leniency (statement silent / two readings):
+//   * a run that exhausts its step budget is not judged (outcome steplimit);
 //   * the implicit first snapshot is "empty": a syncer whose target is empty may
 //     deliver nothing or an initial empty snapshot;
 //   * "content" = key -> value. For the raw adapters a same-value put changes
 //     mod_revision/version only; "consecutive snapshots differ" and "is a real
 //     state" are judged on the full KeyValue there, convergence on key -> value
 //     (stale metadata at the end is counted by a probe, not flagged);
-//   * convergence is checked only after a quiet period of
+//   * convergence is checked after a quiet period of
 //     2*pullInterval + 2*requestTimeout + 2*longest outage + max consumer lag + 3 s
-//     (assumes gRPC reconnects within 2*outage+3 s after the server is back);
+//     (assumes gRPC reconnects within 2*outage+3 s after the server is back). If a
+//     late write (client gave up, request still in the network) lands during it,
+//     waiting starts again; because the scheduler may stall a run (up to 20 x 60 s
+//     while RPCs sit in the network), C19.no-convergence is only reported after
+//     30 consecutive quiet periods without any store change and without
+//     convergence, i.e. "eventually" is read as "within 30 such periods";
 //   * a server-initiated watch cancel WITHOUT compact revision is not generated
 //     (etcd only does that in answer to a client cancel / failed creation).
 
@@ -115,7 +139,7 @@ type c19Writer struct {
 
 type c19Fault struct {
 	AtUs    int64  `json:"at_us"`
-	Kind    string `json:"kind"` // break | halt | stop | compact | rangeerr | rangeslow | watchslow | lostreply
+	Kind    string `json:"kind"` // break | halt | stop | compact | rangeerr | rangeslow | rangelate | watchslow | lostreply
 	DurUs   int64  `json:"dur_us"`
 	N       int    `json:"n"`
 	Code    string `json:"code"` // unavailable | deadline | unknown
@@ -289,7 +313,7 @@ func c19Gen(rng *sim.Rand, tier string) interface{} {
 				ft.N = rng.Pick(1, 1, 2, 5)
 				ft.Code = rng.PickStr("unavailable", "deadline", "unknown", "unknown")
 			case x < 85:
-				ft.Kind = "rangeslow"
+				ft.Kind = rng.PickStr("rangeslow", "rangeslow", "rangelate")
 				ft.N = rng.Pick(1, 2, 3)
 				ft.DurUs = int64(rng.Pick(20_011, 400_009, 2_100_013, 9_000_007))
 			case x < 94:
@@ -325,6 +349,8 @@ type c19Env struct {
 	rangeErrCode  codes.Code
 	rangeSlowLeft int
 	rangeSlowDur  time.Duration
+	rangeLateLeft int
+	rangeLateDur  time.Duration
 	watchSlowLeft int
 	watchSlowDur  time.Duration
 	lostReplyLeft int
@@ -475,6 +501,13 @@ func (e *c19Env) unaryHook(ctx context.Context, ph zzsimetcd.Phase, method strin
 		}
 		return nil
 	}
+	if method == "Range" && e.rangeLateLeft > 0 {
+		// the read is done; its answer leaves late (a later read may overtake it)
+		e.rangeLateLeft--
+		r.Fault("etcd.range_reply_late")
+		e.sleep(e.rangeLateDur)
+		r.Yield("etcd.wake")
+	}
 	if method != "Range" && e.lostReplyLeft > 0 {
 		r.Yield("etcd.reply")
 	}
@@ -499,7 +532,7 @@ func (e *c19Env) watchSendHook(streamID int64, resp *pb.WatchResponse) error {
 }
 
 func (e *c19Env) clearFaults() {
-	e.rangeErrLeft, e.rangeSlowLeft, e.watchSlowLeft, e.lostReplyLeft = 0, 0, 0, 0
+	e.rangeErrLeft, e.rangeSlowLeft, e.watchSlowLeft, e.lostReplyLeft, e.rangeLateLeft = 0, 0, 0, 0, 0
 }
 
 // ---- oracle helpers --------------------------------------------------------------------
@@ -1048,6 +1081,8 @@ func c19Exec(r *sim.Run, sci interface{}) {
 					}
 				case "rangeslow":
 					env.rangeSlowLeft, env.rangeSlowDur = nn, dur
+				case "rangelate":
+					env.rangeLateLeft, env.rangeLateDur = nn, dur
 				case "watchslow":
 					env.watchSlowLeft, env.watchSlowDur = nn, dur
 				case "lostreply":
@@ -1128,7 +1163,8 @@ func c19Exec(r *sim.Run, sci interface{}) {
 	env.store.Close()
 	n.Shutdown()
 	if aborted || r.Aborted() {
-		r.Violate("C19.livelock", "the run used up its scheduling-step budget at %v (store rev %d, %d Range RPCs)", r.Now(), env.store.Rev(), env.rangeCalls)
+		// not a statement violation: the outcome "steplimit" is counted by the driver
+		r.Probe("c19.step_budget_exhausted")
 		return
 	}
 	if r.Violated() {
